@@ -9,6 +9,11 @@ def V(crate, pattern, features=(), tier=None):
     return d
 
 
+def B(kind, bound):
+    """bounded obligation on the real library (witness crate, exhaustive over a stated finite space); never counted as proved"""
+    return {'kind': kind, 'bound': bound}
+
+
 def K(unit, harness, bounded=None, tier=None, timeout=600, cost=None):
     d = {'unit': unit, 'harness': harness, 'timeout': timeout}
     if bounded:
@@ -281,6 +286,55 @@ PROPS.update({
                        'one intended difference, the cfg block in character_direction, is exactly the two models of C14; a syntactic scan asserts that no other feature-gated code exists',
     },
 })
+
+
+# ---- bounded obligations / stand-ins on the real library (witness/src/bounded.rs) -------------------------------------
+B_RT = B('rt', 'Locale / ExtensionsMap / LanguageIdentifier round trip and canonicalize idempotence for every input made of a head (en, und, EN_latn, Und-t-UND) '
+               'followed by <= 4 subtags of a 36-token alphabet (1.7 million strings); the Verus proof covers LanguageIdentifier, this covers the extension part')
+B_INV = B('inv', 'structured locales written two ways: 4 heads x variant subsets of {macos,1996,valencia} x attribute subsets of {foo,bar} x keyword subsets of '
+                 '{ca-buddhist,nu,co-phonebk-trad} x tlang {none,es-ar} x tfield subsets {h0-hybrid,m0-names} x optional -x-a-b; all permutations, one duplicated element, '
+                 'both -u-/-t- orders, 4 case/separator masks')
+B_MUT = B('mut', 'every sequence of <= 3 of 53 mutator calls (valid, boundary and invalid arguments) on 3 start values, every getter / is_empty / has_* / to_string / re-parse '
+                 'compared with a set / multiset / map model after every step (covers the iterator-returning getters, which are outside the Verus contracts)')
+B_FP = B('fromparts', 'from_parts / into_parts of LanguageIdentifier and Locale for every variant list of length <= 3 over {macos,valencia,1996} (any order, duplicates), 2 heads, '
+                      'with and without extensions (the Locale extension string is re-parsed as an ExtensionsMap)')
+LID_RT = [V('langid', r'::vspec::lemma_(first_sep_prefix|dash_join_front|split_head_join|dash_join_concat|opt_dash_join|lid_ser_is_join|alnum_no_sep|alpha_is_alnum|und_props|'
+                      r'lid_roundtrip|strict_sorted_same_set|lid_expected_unique|lid_parse_ser|lid_ser_injective)$')]
+LID_INV = [V('langid', r'::vspec::lemma_(fold_bytes|fold_classes|var_run_fold|lid_case_invariant|first_sep_fold|subtags_fold|first_sep_none_before|lid_variant_order_invariant)$')]
+RT_K = [K('langid_leaf', h) for h in LEAF_LID + ['leaf_language_default_is_und', 'leaf_subtag_eq_str']]
+
+PROPS.update({
+    'C05': {
+        'kani': RT_K + LOCALE_LEAF,
+        'verus': [V('bridge', BRIDGE_ALL)] + LID_PARSER + LID_DISPLAY + LID_RT + LOC_PARSER + LOC_DISPLAY,
+        'bounded': [B_RT],
+        'standin': ['lid', 'locale'],
+        'trusted': ['the link from views to values (equal views of wf values are == values) is rustc derive semantics + axiom_text_injective',
+                    'LanguageIdentifier and subtags: proved; Locale / ExtensionsMap: the parser and Display contracts are proved (C03, C04) but the lemma composing them '
+                    '(parse(ser(v)) == v for extension views) is NOT proved: that link is covered by the bounded obligation bounded:rt only'],
+        'explanation': 'parser contract (from_bytes(b) = Ok(y) with lid_expected(subtags_of(b), y.view()) iff the grammar accepts) + Display contract (to_string(x) = lid_ser(x.view())) + '
+                       'lemma_lid_roundtrip / lemma_lid_parse_ser (for every well-formed view v: subtags_of(lid_ser(v)) are v\'s own subtags, the grammar accepts them and prescribes v again) '
+                       'give parse(to_string(x)) == x for every LanguageIdentifier of the safe API, hence canonicalize idempotence; subtags: Kani leaf contracts (stored text re-parses to itself)',
+    },
+    'C09': {
+        'kani': [K('langid_leaf', h) for h in LEAF_LID] + LOCALE_LEAF,
+        'verus': [V('bridge', BRIDGE_ALL)] + LID_PARSER + LID_INV + LID_RT + LOC_PARSER,
+        'bounded': [B_INV],
+        'standin': ['lid', 'locale'],
+        'trusted': ['LanguageIdentifier level (case, separators, order / repetition of variants): proved as lemmas over the verified parser contract; the locale-level clauses '
+                    '(order / repetition of attributes, order of keywords and tfields, order of -u- and -t-) follow from the shape of the verified contracts (attributes enter as a '
+                    'set, keywords / tfields as a map, -u- and -t- fill independent slots) but the composing lemma is NOT proved: covered by the bounded obligation bounded:inv only'],
+        'explanation': 'the parser contracts are functional in the subtag sequence; lemma_subtags_fold (byte strings that differ in case and -/_ split into subtag sequences that differ '
+                       'only in case), lemma_lid_case_invariant (such sequences are accepted alike and prescribed the same value) and lemma_lid_variant_order_invariant (the value depends on '
+                       'the variants only through the set of their lower-cased forms) give both-fail-or-equal for LanguageIdentifier; leaf parsers are case-insensitive by their Kani contracts',
+    },
+})
+PROPS['C10']['bounded'] = [B_MUT]
+PROPS['C10']['standin'] = ['locale']
+PROPS['C17']['bounded'] = [B_FP]
+PROPS['C13']['standin'] = ['lid', 'locale']
+PROPS['C12']['bounded'] = [B_MUT]
+PROPS['C12']['verus'] = PROPS['C12']['verus'] + [V('langid', r'::vspec::lemma_(lid_ser_injective|lid_parse_ser|lid_roundtrip|strict_sorted_same_set|lid_expected_unique)$')]
 
 NOT_APPLICABLE = {
     'C16': 'compile-time macro expansion (proc_macro::TokenStream, compile success/failure) is outside any function contract; see DESIGN.md',
